@@ -1,11 +1,12 @@
 """C12 — symmetry operators and penalties are exact; default ansaetze conserve them."""
+import json
 import itertools, random
 import numpy as np
 from fractions import Fraction
 import vlib, fock
 
 CLAIM = {
- "text": "Proof (Lean 4), partial: N and S_z are modelled as the term lists the code builds (spin-orbital index selection per ordering); proved for every number of orbitals, both orderings and every determinant: a sum of c_p a_p^dagger a_p multiplies the amplitude of a determinant by the sum of c_p over its occupied spin-orbitals, hence N has eigenvalue (number of electrons) and S_z has eigenvalue (n_up - n_down)/2 on every Slater determinant (through the C03 intertwining the same holds for the Jordan-Wigner encoded operators); a penalty mu (O - t)^2 with mu > 0 is non-negative on every eigenvector and vanishes exactly when the eigenvalue equals the target. Commutation is proved too: a diagonal operator whose weight is additive over the occupied modes obeys the shift relations D a+_p = a+_p (D + g_p), D a_q = a_q (D - g_q), hence commutes with every ladder string whose increments cancel and, by linearity, with every operator made of such strings - N with every number-conserving Hamiltonian, S_z with every Hamiltonian whose terms conserve the spin projection (any coefficients, any number of terms, every register size); the increments of N are computed (1 on each of the 2 n_orbs spin-orbitals). NOT proved in Lean: the structure of S^2 (eigenfunctions, commutation), that the integrals of a particular molecule vanish for non-conserving terms, the other encodings, and conservation by the ansaetze - all evaluated by the numerical oracle: dense Fock-space matrices against an independent construction of N, S_z, S^2 = S_z^2 + (S+S- + S-S+)/2, commutators with random molecular Hamiltonians, penalty spectra and kernels, encoded spectra, and <N>, <N^2>, <S_z>, <S_z^2> on ansatz states at random parameters (variance zero).",
+ "text": "Proof (Lean 4), partial: N and S_z are modelled as the term lists the code builds (spin-orbital index selection per ordering); proved for every number of orbitals, both orderings and every determinant: a sum of c_p a_p^dagger a_p multiplies the amplitude of a determinant by the sum of c_p over its occupied spin-orbitals, hence N has eigenvalue (number of electrons) and S_z has eigenvalue (n_up - n_down)/2 on every Slater determinant (through the C03 intertwining the same holds for the Jordan-Wigner encoded operators); a penalty mu (O - t)^2 with mu > 0 is non-negative on every eigenvector and vanishes exactly when the eigenvalue equals the target. Commutation is proved too: a diagonal operator whose weight is additive over the occupied modes obeys the shift relations D a+_p = a+_p (D + g_p), D a_q = a_q (D - g_q), hence commutes with every ladder string whose increments cancel and, by linearity, with every operator made of such strings - N with every number-conserving Hamiltonian, S_z with every Hamiltonian whose terms conserve the spin projection (any coefficients, any number of terms, every register size); the increments of N are computed (1 on each of the 2 n_orbs spin-orbitals). The option handling of combined_penalty is modelled as a dictionary of defaults updated with the caller's options: with per-call defaults the effective options of a call are proved independent of every earlier call (fresh_history_independent), while one shared default dictionary is refuted by a two-call history (shared_counterexample - the defect class of three seeded changes); the model's effective options are compared with the penalties the code returns on random call histories. NOT proved in Lean: the structure of S^2 (eigenfunctions, commutation), that the integrals of a particular molecule vanish for non-conserving terms, the other encodings, and conservation by the ansaetze - all evaluated by the numerical oracle: dense Fock-space matrices against an independent construction of N, S_z, S^2 = S_z^2 + (S+S- + S-S+)/2, commutators with random molecular Hamiltonians, penalty spectra and kernels, encoded spectra, and <N>, <N^2>, <S_z>, <S_z^2> on ansatz states at random parameters (variance zero).",
  "note": "Trusted: Lean kernel + standard axioms; openfermion normal_ordered; numpy; cirq (ansatz states); PySCF (molecules for the ansaetze).",
  "technique": "Lean 4 eigenvalue theorems for the diagonal symmetry operators and penalty arithmetic + dense-matrix oracle + ansatz-state conservation oracle"}
 
@@ -39,6 +40,11 @@ def operators_case(ctx, n_orbs, utd, rng):
     ctx.case(case, nontrivial=n_orbs >= 2, sample=n_orbs == 2)
     ctx.count("operators")
     Nr, Szr, S2r = indep_ops(n_orbs, utd)
+    # the operator a call returns belongs to the caller: scaling it in place must not change what the next call returns
+    for f in (number_operator, spinz_operator, spin2_operator):
+        first = f(n_orbs, utd)
+        first *= 3.0
+        first += FermionOperator((), 1.0)
     Nm = fock.fermion_matrix(number_operator(n_orbs, utd), n)
     Szm = fock.fermion_matrix(spinz_operator(n_orbs, utd), n)
     S2m = fock.fermion_matrix(spin2_operator(n_orbs, utd), n)
@@ -102,6 +108,14 @@ def operators_case(ctx, n_orbs, utd, rng):
             got = fock.fermion_matrix(combined_penalty(n_orbs, {k: list(allp[k][0]) for k in keys}, utd), n)
             want = mu * sum((allp[k][1] - allp[k][2] * np.eye(2 ** n)) @ (allp[k][1] - allp[k][2] * np.eye(2 ** n)) for k in keys)
             ctx.count("penalty_history")
+            # the model's effective options for this call after this history (per-call defaults: theorem
+            # fresh_history_independent) name the same penalties
+            jd = ctx.model.ask({"op": "defaults_history", "defaults": [[k, [0, 0]] for k in ("N", "Sz", "S^2")],
+                                "history": [[[k, allp[k][0]] for k in h] for h in hist[:-1]], "opts": [[k, allp[k][0]] for k in keys]})
+            eff = {k: json.loads(v) for k, v in jd.get("effective", [])}
+            if eff and {k for k, v in eff.items() if v[0] > 0} != {k for k in keys if allp[k][0][0] > 0}:
+                ctx.mismatch(f"model: effective penalty options {eff} after history {hist[:-1]} for keys {keys}", {**case, "history": hist})
+                return False
             if not np.allclose(got, want, atol=1e-9):
                 ctx.violation(f"combined_penalty with keys {keys} (after calls with {hist[:-1]}) is not the sum of the requested penalties", {**case, "history": hist, "mu": mu})
                 return False
